@@ -93,6 +93,14 @@ def main():
             sh(['git', '-C', str(V), 'checkout', '--', 'lean/Mahotas/Generated'])
     dst = V / 'seeded' / name
     dst.mkdir(parents=True, exist_ok=True)
+    if meta.get('patch_applies') is False and (dst / 'meta.json').exists():
+        # a re-verification against a later /repo on which the patch no longer applies: keep the earlier record
+        old = json.loads((dst / 'meta.json').read_text())
+        if old.get('confirmed'):
+            old['note_reverify'] = f"patch no longer applies to /repo at {meta['base'][:10]}; record kept from base {old.get('base', '?')[:10]}"
+            (dst / 'meta.json').write_text(json.dumps(old, indent=1) + '\n')
+            print(json.dumps(dict(name=name, kept_old_record=True, detected_by=old.get('detected_by'))))
+            return
     for fn in ('patch.diff', 'demo.py', 'notes.txt'):
         if (src / fn).exists() and (src / fn).resolve() != (dst / fn).resolve():
             shutil.copy(src / fn, dst / fn)
